@@ -151,6 +151,9 @@ struct Ctx {
     unverifiable: u64,
     noresult: u64,
     texts: HashMap<String, String>,
+    /// every range/position any result returned for the current document (for the verified checker)
+    cur_uri: String,
+    doc_ranges: Vec<Rg>,
 }
 
 impl Ctx {
@@ -181,6 +184,9 @@ impl Ctx {
         let mut rs = Vec::new();
         collect_ranges(result, req_uri, req_uri, "", &mut rs);
         for (uri, r, path) in rs {
+            if uri == self.cur_uri {
+                self.doc_ranges.push(r);
+            }
             match self.info_for(&uri) {
                 None => self.unverifiable += 1,
                 Some(info) => {
@@ -412,6 +418,52 @@ fn find_workspace_edits<'a>(v: &'a Value, out: &mut Vec<&'a Value>) {
     }
 }
 
+/// The candidate ranges the selection-range handler feeds to push_growing_range for a position: the token at the
+/// offset (right-biased) and all its ancestors — computed on a tree parsed by the real Vfs with the default
+/// configuration (the server's workspace has no .emmyrc).  None for tokens inside a doc description (the handler
+/// then uses the private markdown ranges) and when the document was normalised by the Vfs.
+struct SelCands {
+    vfs: emmylua_code_analysis::Vfs,
+    id: Option<emmylua_code_analysis::FileId>,
+}
+
+impl SelCands {
+    fn new(text: &str) -> SelCands {
+        use emmylua_code_analysis::{Emmyrc, Vfs, VirtualUrlGenerator};
+        let mut vfs = Vfs::new();
+        vfs.update_config(Emmyrc::default().into());
+        let vg = VirtualUrlGenerator::new();
+        let uri = vg.new_uri("c26sel.lua");
+        let id = vfs.set_file_content(&uri, Some(text.to_string()));
+        let ok = vfs.get_document(&id).map(|d| d.get_text() == text).unwrap_or(false);
+        SelCands { vfs, id: if ok { Some(id) } else { None } }
+    }
+    fn candidates(&self, p: Pos) -> Option<Vec<[u32; 2]>> {
+        use emmylua_parser::{LuaAstNode, LuaDocDescription};
+        let id = self.id?;
+        let doc = self.vfs.get_document(&id)?;
+        let tree = self.vfs.get_syntax_tree(&id)?;
+        let root = tree.get_red_root();
+        let offset = doc.get_offset(p.0 as usize, p.1 as usize)?;
+        if offset > root.text_range().end() {
+            return None;
+        }
+        let token = match root.token_at_offset(offset) {
+            rowan::TokenAtOffset::Single(t) => t,
+            rowan::TokenAtOffset::Between(_, r) => r,
+            rowan::TokenAtOffset::None => return None,
+        };
+        if token.parent().and_then(LuaDocDescription::cast).is_some() {
+            return None;
+        }
+        let mut out = vec![[u32::from(token.text_range().start()), u32::from(token.text_range().end())]];
+        for a in token.parent_ancestors() {
+            out.push([u32::from(a.text_range().start()), u32::from(a.text_range().end())]);
+        }
+        Some(out)
+    }
+}
+
 struct Points {
     names: Vec<Pos>,
     completion: Vec<Pos>,
@@ -499,6 +551,9 @@ fn run_doc(cx: &mut Ctx, sl: &mut Server, ml: &mut Server, idx: usize, doc: &str
     let uri_ml = ml.open(&name, text);
     cx.texts.insert(uri.clone(), text.to_string());
     cx.texts.insert(uri_ml.clone(), text.to_string());
+    cx.cur_uri = uri.clone();
+    cx.doc_ranges.clear();
+    let cands = if obs.is_some() { Some(SelCands::new(text)) } else { None };
     let info = DocInfo::new(text);
     let td = json!({"uri": uri});
     let mut o = serde_json::Map::new();
@@ -565,7 +620,9 @@ fn run_doc(cx: &mut Ctx, sl: &mut Server, ml: &mut Server, idx: usize, doc: &str
             if let Some(first) = v.get(0) {
                 let chain = selection_chain(first);
                 check_selection(cx, &chain, *p, &info, doc, text);
-                sels.push(json!([p.0, p.1, chain.iter().map(|r| json!([r.0.0, r.0.1, r.1.0, r.1.1])).collect::<Vec<_>>()]));
+                cx.check_ranges("textDocument/selectionRange", &json!(chain.iter().map(|r| json!({"start": {"line": r.0.0, "character": r.0.1}, "end": {"line": r.1.0, "character": r.1.1}})).collect::<Vec<_>>()), &uri, doc, text);
+                let cs = cands.as_ref().and_then(|c| c.candidates(*p)).map(|v| json!(v)).unwrap_or(Value::Null);
+                sels.push(json!([p.0, p.1, chain.iter().map(|r| json!([r.0.0, r.0.1, r.1.0, r.1.1])).collect::<Vec<_>>(), cs]));
             }
         }
     }
@@ -652,6 +709,12 @@ fn run_doc(cx: &mut Ctx, sl: &mut Server, ml: &mut Server, idx: usize, doc: &str
         }
     }
     o.insert("edit_sets".into(), json!(edit_sets));
+    {
+        let mut rs = cx.doc_ranges.clone();
+        rs.sort();
+        rs.dedup();
+        o.insert("ranges".into(), json!(rs.iter().map(|r| json!([r.0.0, r.0.1, r.1.0, r.1.1])).collect::<Vec<_>>()));
+    }
     if let Some(out) = obs {
         out.insert("doc".into(), json!(doc));
         out.insert("t".into(), json!(text.chars().map(|c| c as u32).collect::<Vec<_>>()));
@@ -720,7 +783,7 @@ fn main() {
             let lib = vec![("lib/util.lua".to_string(), "local M = {}\n---@param s string\n---@return string\nfunction M.trim(s) return s end\nreturn M\n".to_string())];
             let mut sl = Server::start("c26sl", caps(false), &lib);
             let mut ml = Server::start("c26ml", caps(true), &lib);
-            let mut cx = Ctx { viol: vec![], sig_seen: HashMap::new(), checked: BTreeMap::new(), unverifiable: 0, noresult: 0, texts: HashMap::new() };
+            let mut cx = Ctx { viol: vec![], sig_seen: HashMap::new(), checked: BTreeMap::new(), unverifiable: 0, noresult: 0, texts: HashMap::new(), cur_uri: String::new(), doc_ranges: Vec::new() };
             let mut kinds: BTreeMap<String, u64> = BTreeMap::new();
             let mut distinct: HashSet<u64> = HashSet::new();
             let maxchars = args.usize("maxchars", 1_000_000);
@@ -769,7 +832,52 @@ fn main() {
             use emmylua_code_analysis::{Emmyrc, Vfs, VirtualUrlGenerator};
             let n = args.usize("n", 200);
             let alphabet: Vec<char> = vec!['a', 'b', ' ', '\n', '\n', '\r', 'é', '😀', '-', '中'];
-            for i in 0..n {
+            // deterministic split cases first: a multi-line token whose non-last lines hold non-ASCII / astral text,
+            // LF, CRLF and lone CR line ends, client without multilineTokenSupport (and with, for contrast)
+            let fixed_texts = ["local s = [[你好，世界\n第二行 — über\nend]]\nlocal t = 1\n",
+                               "local s = [[a😀b😀\r\n𝒳𝒳 é\r\nlast]]\r\nlocal t = 1\r\n",
+                               "local s = [==[中文😀\r— ß 😀😀\rz]==]\rlocal t = 1\r",
+                               "--[[ 😀 комментарий\n   中 😀😀 é\n   конец ]]\nlocal x = 1\n"];
+            let mut fixed_cases: Vec<(String, bool, Vec<(u32, u32, u32, u32)>)> = Vec::new();
+            for t in fixed_texts {
+                let a = t.find('[').unwrap_or(0) as u32;
+                let b = (t.rfind(']').unwrap_or(0) + 1) as u32;
+                let a0 = if t.starts_with("--") { 0 } else { a };
+                for ml in [false, true] {
+                    // the whole multi-line token, plus a nested single-line token on its second line
+                    let second = (t.char_indices().find(|(_, c)| *c == '\n' || *c == '\r').map(|(i, _)| i).unwrap_or(0) + 1) as u32;
+                    let mut second = second as usize;
+                    while !t.is_char_boundary(second) || t.as_bytes().get(second) == Some(&b'\n') {
+                        second += 1;
+                    }
+                    let mut e2 = second + 1;
+                    while !t.is_char_boundary(e2) {
+                        e2 += 1;
+                    }
+                    fixed_cases.push((t.to_string(), ml, vec![(a0, b, 18, 0), (second as u32, e2 as u32, 15, 1)]));
+                }
+            }
+            for i in 0..(n + fixed_cases.len()) {
+                if i < fixed_cases.len() {
+                    let (text, ml, pushes) = fixed_cases[i].clone();
+                    let mut vfs = Vfs::new();
+                    vfs.update_config(Emmyrc::default().into());
+                    let vg = VirtualUrlGenerator::new();
+                    let uri = vg.new_uri("c26.lua");
+                    let id = vfs.set_file_content(&uri, Some(text.clone()));
+                    if let Some(doc) = vfs.get_document(&id) {
+                        if doc.get_text() == text {
+                            let out = vh_common::guarded(|| emmylua_ls::verif_semantic_push_and_build(&doc, ml, &pushes));
+                            let outv = match out {
+                                Ok(v) => json!(v.iter().map(|t| t.to_vec()).collect::<Vec<_>>()),
+                                Err(_) => json!("P"),
+                            };
+                            println!("{}", json!({"t": text.chars().map(|c| c as u32).collect::<Vec<_>>(), "ml": ml, "fixed": true,
+                                "pushes": pushes.iter().map(|p| vec![p.0, p.1, p.2, p.3]).collect::<Vec<_>>(), "out": outv}));
+                        }
+                    }
+                    continue;
+                }
                 let len = 1 + rng.below(args.usize("maxlen", 30));
                 let mode = rng.below(4);
                 let text: String = (0..len).map(|_| match mode {
@@ -831,7 +939,7 @@ fn main() {
             let lib: Vec<(String, String)> = vec![];
             let mut sl = Server::start("c26one_sl", caps(false), &lib);
             let mut ml = Server::start("c26one_ml", caps(true), &lib);
-            let mut cx = Ctx { viol: vec![], sig_seen: HashMap::new(), checked: BTreeMap::new(), unverifiable: 0, noresult: 0, texts: HashMap::new() };
+            let mut cx = Ctx { viol: vec![], sig_seen: HashMap::new(), checked: BTreeMap::new(), unverifiable: 0, noresult: 0, texts: HashMap::new(), cur_uri: String::new(), doc_ranges: Vec::new() };
             run_doc(&mut cx, &mut sl, &mut ml, 0, "one", &text, &mut rng, args.usize("maxpos", 40), None);
             println!("{}", json!({"replay": "c26 one"}));
             for v in &cx.viol {
